@@ -133,10 +133,10 @@ pub fn name_from_json(v: &Value) -> String {
     rep.repeat(v["count"].as_u64().unwrap_or(0) as usize)
 }
 pub fn bytes_json(b: &[u8]) -> Value {
-    if b.len() > 64 {
-        if b.iter().all(|&c| c == b[0]) {
-            return json!({"rep_byte": b[0], "count": b.len()});
-        }
+    if b.len() > 64 && b.iter().all(|&c| c == b[0]) {
+        return json!({"rep_byte": b[0], "count": b.len()});
+    }
+    if b.len() > 1 << 20 {
         return json!({"gen": "content", "len": b.len(), "fnv": crate::util::fnv(b)});
     }
     json!(hex(b))
